@@ -197,6 +197,9 @@ func unmarshalTagValue(dest []byte, src []byte) ([]byte, []byte, *modelv1.TagVal
 	switch vt {
 	case ValueTypeUnknown:
 		// skip ValueType and entityDelimiter
+		if len(src) < 2 {
+			return nil, nil, nil, errors.New("truncated null tag value")
+		}
 		return dest, src[2:], NullTagValue, nil
 	case ValueTypeStr:
 		if dest, src, err = unmarshalEntityValue(dest, src[1:]); err != nil {
@@ -215,6 +218,9 @@ func unmarshalTagValue(dest []byte, src []byte) ([]byte, []byte, *modelv1.TagVal
 	case ValueTypeInt64:
 		if dest, src, err = unmarshalEntityValue(dest, src[1:]); err != nil {
 			return nil, nil, nil, errors.WithMessage(err, "unmarshal int tag value")
+		}
+		if len(dest) < 8 { // Need at least 8 bytes for the 64-bit value
+			return nil, src, nil, errors.New("insufficient bytes for int tag value")
 		}
 		return dest, src, &modelv1.TagValue{
 			Value: &modelv1.TagValue_Int{
